@@ -20,7 +20,8 @@ LEVEL_NOTE = c01.LEVEL_NOTE
 RULE = c01.RULE.replace("chart field edits by attribute and key, extradata", "SSC chart edits by key and attribute incl. deletion and reordering") + \
     " Values may be pool references: the same Python string object under several keys (identity aliasing)." \
     " Round 6: 32-70 charts, second load (loads) after the first result was edited in place." \
-    ' Round 8: charts with 258-300 properties, a first parameter longer than 64 KiB.'
+    ' Round 8: charts with 258-300 properties, a first parameter longer than 64 KiB.' \
+    ' Round 9: the text read back from files named almost like simfiles (song.prism, chasm, assc).'
 ASSUMPTIONS = c01.ASSUMPTIONS
 MONITORS = ["model_equality", "roundtrip", "restringify", "loads_detects_ssc", "tokenizer_structure", "chart_from_str", "eq_when_notes_last", "second_parse_after_editing_the_first", "file_named_almost_like_a_simfile"]
 REQUIRED = ["empty_notes", "interned_notes", "same_object_as_notes", "notes2", "notes_not_last", "chart_multi_value",
